@@ -4,12 +4,12 @@ PROP = {'title': 'Safe API is total: no UB, crash or hang; failure only via opti
  'technique': 'registry of public functions x instantiations, each run over its complete stated finite domain in an ASan+UBSan+'
               '_GLIBCXX_ASSERTIONS build with a per-case watchdog and a catch-all around every call',
  'level_text': 'Every registered function is called on every element of an explicitly enumerated domain (all values of every 8/16-bit '
-               'instantiation, the boundary lattice of 32/64 bit, all containers over {0,1,2} up to length 4/5 with all indices in a margin '
-               'and beyond 2^31/2^32/2^63, all strings over {-,a,1,space} up to length 4..6 in exact-size heap buffers, all argument vectors '
-               'up to length 3/4 over six tokens, a fixed private directory tree). Each case is announced before the call, so a sanitizer '
-               'abort, a libstdc++ assertion or a hang is attributed to it; any exception other than the documented one of that entry is a '
-               'violation; where cheap the returned optional/either is compared with the obvious expectation. The unit tests call each '
-               'function on 1-5 values in an uninstrumented build and reach none of the edge inputs.',
+               'instantiation, the boundary lattice of 32/64 bit, all containers over {0,1,2} up to length 4 (thorough 6) with all indices in a '
+               'margin and beyond 2^31/2^32/2^63, all strings over {-,a,1,space} up to length 4..5 (thorough 6..8) in exact-size heap buffers, '
+               'all argument vectors up to length 3 (thorough 5) over six tokens, a fixed private directory tree). Each case is announced '
+               'before the call, so a sanitizer abort, a libstdc++ assertion or a hang is attributed to it; any exception other than the '
+               'documented one of that entry is a violation; where cheap the returned optional/either is compared with the obvious '
+               'expectation. The unit tests call each function on 1-5 values in an uninstrumented build and reach none of the edge inputs.',
  'level_note': "'every public function' is bounded by the registry (size in counters.registry_entries, per-entry case counts in "
                "counters['cases:<entry>'], skip predicates in 'skipped:<entry>'); 32/64-bit types on the boundary lattice only; oracle = "
                'sanitizers + exception whitelist + watchdog, plus simple expectations; value-level correctness of these functions is the '
@@ -20,20 +20,22 @@ PROP = {'title': 'Safe API is total: no UB, crash or hang; failure only via opti
  'deadline': {'quick': 300, 'thorough': 1200},
  'rule': 'one registry entry per function x instantiation, each a deterministic nest of loops over its whole domain: integer helpers '
          '(log2, next_power_of_2, is_power_of_2, div, mod, diff, clamp, ceil_div, ceil_div_signed, truncation_check (64 type pairs), '
-         'enum from_int) over every 8/16-bit value (pairs: all on 8 bit, 16 bit x lattice, every 16-bit first operand in the thorough '
-         'tier; clamp triples) and the 32/64-bit boundary lattice, float/double special values; at_optional / maybe_front / maybe_back / '
-         'pop_back / pop_front / find_opt(_mapped,_iterator) / array::from_range over all sequences over {0,1,2} up to length 4 (thorough 5) '
+         'enum from_int) over every 8/16-bit value (pairs: all on 8 bit; every 16-bit first operand x the lattice, thorough: x lattice and '
+         'every 16th value; clamp: all 8-bit triples, all lattice triples on 16 bit, on 32/64 bit 64 lattice points in quick and the whole '
+         'lattice in thorough) and the 32/64-bit boundary lattice, float/double special values; at_optional / maybe_front / maybe_back / '
+         'pop_back / pop_front / find_opt(_mapped,_iterator) / array::from_range over all sequences over {0,1,2} up to length 4 (thorough 6) '
          'with every index in 0..size+2 and 8 huge indices; grid::at_optional for N=1,2,3 with every position in the margin and huge '
-         'coordinates; runtime_index over all u8/u16 values; enum from_string, extract_from_string (18 type instantiations), io::get / peek / '
-         'read / read_chars / stream_to_string, is_flag, parse_string / phrase_parse_string (18 grammars) over all strings over {-,a,1,space} '
-         'up to length 4 (thorough 5-6) plus integer-limit strings; narrow / widen over all strings over 8 (wide) characters incl. invalid '
-         'ones up to length 3 (thorough 4); next_arg, options::parse (11 parsers), parse_help over all argument vectors up to length 3 '
-         '(thorough 4) over {-,--,-a,--a,x,1}; every fcppt::filesystem function over 26 paths of a private tree (missing, empty, 5-byte, '
-         'directory, dangling / looping / valid symlinks, names with / without / only extension, trailing slash and dot) and 20 lexical '
-         'paths. string_view arguments live in exact-size heap blocks. A case is non-trivial when it reaches the guard or its boundary: '
-         'zero divisor, value at or across a type limit, empty or one-element container, index in {size-1,size,size+1,...}, string '
-         'beginning with - or space, non-ASCII string, path that is not a readable regular file / has no extension (per-entry '
-         'predicate in harness/C01*.cpp); cases are distinct (entry, input) tuples',
+         'coordinates; runtime_index over all u8/u16 values; cast::dynamic; enum from_string, extract_from_string (18 instantiations), '
+         'io::get / peek / read / read_chars / stream_to_string over all strings over {-,a,1,space} up to length 4 (thorough 6) plus '
+         'integer-limit strings; is_flag up to length 5 (thorough 8); parse_string / phrase_parse_string (19 grammars) up to length 4 '
+         '(thorough 7); narrow / widen over all strings over 8 (wide) characters incl. invalid ones up to length 4 (thorough 5); next_arg, '
+         'options::parse (11 parsers) over all argument vectors up to length 3 (thorough 5) over {-,--,-a,--a,x,1}, parse_help with --help/-h '
+         'added (length 3, thorough 4); every fcppt::filesystem function over 26 paths of a private tree (missing, empty, 5-byte, directory, '
+         'dangling / looping / valid symlinks, names with / without / only extension, trailing slash and dot) and 20 lexical paths. '
+         'string_view arguments live in exact-size heap blocks. A case is non-trivial when it reaches the guard or its boundary: zero '
+         'divisor, value at or across a type limit, empty or one-element container, index in {size-1,size,size+1,...}, string beginning '
+         'with - or space, non-ASCII string, path that is not a readable regular file / has no extension (per-entry predicate in '
+         'harness/C01*.cpp); cases are distinct (entry, input) tuples',
  'assumptions': ['the registry is the claim: functions not registered are not covered',
                  "inputs excluded by the documentation or whose exact result is not representable are skipped and listed under 'skipped:<entry>' "
                  '(log2(0), next_power_of_2 above the largest power, signed min / -1, |a-b| overflow, strip_prefix with a non-prefix)',
